@@ -41,7 +41,7 @@ def cmd_replay(pid, path):
         zp.close()
     want = rep["violation"]
     hit = [v for v in viols if framework.same_violation(v, want)]
-    print(f"replay {path}: digest {'same' if dg == rep['digest'] else 'DIFFERENT'}; violations now: {len(viols)}")
+    print(f"replay {path}: digest {'same' if dg == rep.get('digest') else ('not recorded (corpus plan)' if 'digest' not in rep else 'DIFFERENT')}; violations now: {len(viols)}")
     if os.environ.get("VERIF_VERBOSE"):
         for ev in history:
             print("  ", ev[0], ev[1], json.dumps(ev[2])[:160], "->", json.dumps(ev[3])[:200])
